@@ -340,8 +340,14 @@ def make_case_beam(case):
     b = FU.make_beam("ParameterBeam", P, En, dtype)
     if case["batch"]:
         k = torch.arange(1, case["batch"] + 1, dtype=dtype)
-        return cheetah.ParameterBeam(b._mu * k.reshape(-1, 1), b._cov * k.reshape(-1, 1, 1), b.energy * k,
-                                     total_charge=b.total_charge * k, dtype=dtype)
+        b = cheetah.ParameterBeam(b._mu * k.reshape(-1, 1), b._cov * k.reshape(-1, 1, 1), b.energy * k,
+                                  total_charge=b.total_charge * k, dtype=dtype)
+    if case.get("asym"):
+        # a covariance that is not exactly symmetric (round-off of R cov R^T, or handed over like this): a clone copies it
+        cov = b._cov.clone()
+        cov[..., 0, 1] = cov[..., 0, 1] * 1.001
+        cov[..., 2, 5] = cov[..., 2, 5] + 1e-3 * cov[..., 2, 2].abs().sqrt() * cov[..., 5, 5].abs().sqrt()
+        b = cheetah.ParameterBeam(b._mu, cov, b.energy, total_charge=b.total_charge, dtype=dtype)
     return b
 
 
@@ -452,12 +458,13 @@ def gen_beam_case(rng) -> dict:
     n = int(FU.pick(rng, 1, 5, 12))
     return {"kind": "beam", "beam": FU.pick(rng, "ParticleBeam", "ParameterBeam"), "dtype": FU.pick(rng, "float64", "float32"),
             "batch": int(FU.pick(rng, 0, 0, 2, 3)), "energy": float(np.exp(rng.uniform(np.log(2e7), np.log(2e9)))),
-            "particles": FU.gen_particles(rng, n).tolist(), "survival": [float(x) for x in rng.choice([0.0, 0.5, 1.0], size=n)]}
+            "particles": FU.gen_particles(rng, n).tolist(), "survival": [float(x) for x in rng.choice([0.0, 0.5, 1.0], size=n)],
+            "asym": bool(rng.random() < 0.4)}
 
 
 def case_key(case) -> tuple:
     if case["kind"] == "beam":
-        return ("beam", case["beam"], case["dtype"], case["batch"], len(case["particles"]))
+        return ("beam", case["beam"], case["dtype"], case["batch"], len(case["particles"]), bool(case.get("asym")) and case["beam"] == "ParameterBeam")
 
     def k(r):
         if r["cls"] == "Segment":
